@@ -22,7 +22,7 @@ PROP = 'C02'
 LIBS = ['mpilot.libraries.eems.basic', 'mpilot.libraries.eems.fuzzy', 'mpvinputs']
 
 NUM_DEFAULTS = {'TrueThreshold': 1.5, 'FalseThreshold': -0.5, 'Threshold': 0.25, 'StartVal': -0.5, 'EndVal': 2, 'DefaultNormalValue': 0.125,
-                'DefaultFuzzyValue': 0.125, 'TrueThresholdZScore': 1.5, 'FalseThresholdZScore': -0.75, 'NumberToConsider': 1}
+                'DefaultFuzzyValue': 0.125, 'TrueThresholdZScore': 1.5, 'FalseThresholdZScore': -0.75, 'NumberToConsider': 2}
 LIST_DEFAULTS = {'Weights': [0.5, 1.5, 2, 0.25], 'RawValues': [0, 1, -1, 2], 'NormalValues': [-0.5, 0.25, 1.5, 0.75], 'FuzzyValues': [-0.5, 0.25, 1.5, 0.75],
                  'ZScoreValues': [-1, 0.5, 1.5, -0.25]}
 MTM = [-1, -0.5, 0.25, 0.5, 1.5]
@@ -77,7 +77,7 @@ def plan(tier, seed):
             continue        # statistic-on-statistic chains: thorough tier only (nonlinear on nonlinear)
         layouts = ['forward', 'reverse'] if tier == 'thorough' else [['forward', 'reverse'][idx % 2]]
         for layout in layouts:
-            jobs.append(dict(kind='pair', prod=pr, cons=co, param=pn, layout=layout, meta=(idx % 3 == 0), extra_consumer=(idx % 2 == 1),
+            jobs.append(dict(kind='pair', prod=pr, cons=co, param=pn, layout=layout, meta=(idx % 3 == 0), extra_consumer=(idx % 2 == 1), alt=(idx // 2) % 2,
                              n=2 if heavy else 3, sampled=(tier == 'quick')))
     # deeper shapes: diamonds and depth-3 chains drawn from the typed grammar (labelled sampled)
     ndeep = 12 if tier == 'quick' else 120
@@ -92,9 +92,10 @@ def plan(tier, seed):
 class Model(object):
     """commands in LOGICAL order: (result name, CmdSpec or 'input', {param: literal / ref / [refs]}, fuzzy flag)"""
 
-    def __init__(self):
+    def __init__(self, alt=0):
         self.cmds = []
         self.inputs = []
+        self.alt = alt
 
     def add_input(self, name, fuzzy):
         self.cmds.append((name, 'input', {'Name': name}, fuzzy))
@@ -122,7 +123,8 @@ class Model(object):
                 args[p.name] = False
             elif p.kind == 'str':
                 if p.required:
-                    args[p.name] = D.STR_CHOICES.get(p.name, ['x'])[0]
+                    ch = D.STR_CHOICES.get(p.name, ['x'])
+                    args[p.name] = ch[self.alt % len(ch)]
         self.cmds.append((name, sp, args, sp.fuzzy_out))
         return name
 
@@ -154,7 +156,7 @@ def input_kind_for(param, rng_pick):
 def build_pair(cfg):
     specs = D.command_specs_cached()
     prod, cons = specs[cfg['prod']], specs[cfg['cons']]
-    m = Model()
+    m = Model(cfg.get('alt', 0))
     cnt = [0]
 
     def feed(sp, use=None, use_param=None):
@@ -193,7 +195,7 @@ def build_deep(cfg):
     specs = list(D.command_specs_cached().values())
     cheap = [s for s in specs if 'ZScore' not in s.name and 'MeanToMid' not in s.name and s.name not in ('FuzzyXOr', 'FuzzySelectedUnion')]
     pick = cfg['pick']
-    m = Model()
+    m = Model(cfg.get('order', 0))
     cnt = [0]
 
     def new_input(fz):
